@@ -34,6 +34,19 @@ package listener
 //@ ghost G_closes(x interface{}) int
 //@ ghost G_isclosed(x interface{}) bool
 //@ go func reportsClosedL(c io.Closer) bool { _, ok := c.(streams.Closed); return ok && G_isclosed(c) }
+// C02: the loop that accepts local connections holds a token; serving one local connection for its whole
+// lifetime (HandleConnection: dial, handshake with the upstream, copy until either side closes) must not run
+// while it is held, i.e. not on the accept loop: otherwise one open local connection keeps every other
+// local application from connecting.  `go` starts a function without tokens.
+//@ ghost G_holds_local_accept_loop() bool
+//@ func (l *SocketListener) accept
+//@   property C02
+//@   loop 1 holds local_accept_loop
+//@ func (l *SocketListener) Start
+//@   property C02, C18
+//@   callsite net.Listen#1 (arg0 string, arg1 string) require arg0 == l.Address.Scheme && arg1 == l.Address.Host      :listens_on_the_configured_address
+//@   nocall AbstractListener).HandleConnection                                                                     :start_only_starts_the_accept_loop
+
 //@ func (l *AbstractListener) ConnectDirectly
 //@   property C16
 //@   safe
@@ -50,9 +63,9 @@ package listener
 //@   property C16
 //@   requires conn != nil && !spec_sameref(conn, nil) && l.Config != nil && upstream.UpstreamsInv(l.Upstreams)
 // C02: one logical connection never ends the session all logical connections share (that is reserved for the
-// client's shutdown): the token is not held here, and Upstreams.Shutdown requires it
+// client's shutdown: Upstreams.Shutdown requires a token nobody hands to this function)
 //@   property C02
-//@   requires !upstream.G_client_stopping()                                                                     :an_ordinary_connection_not_the_shutdown
+//@   requires !G_holds_local_accept_loop()                                                                      :not_on_the_local_accept_loop
 //@   nocall Upstreams).Shutdown                                                                                 :one_logical_connection_never_ends_the_shared_session
 //@   property C16
 //@   callsite ConnectDirectly#1 (ok bool) assume G_snap_direct() == ok "ghost snapshot: the direct attempt handled the connection"
